@@ -3929,16 +3929,16 @@ def sdp(c, Gl = None, hl = None, Gs = None, hs = None, A = None, b = None,
                 base.gemv(Gs[k], x, rz, beta = 1.0, offsety = ind)
                 ind += ms[k]**2
             dims = {'l': ml, 's': ms, 'q': []}
-            resz = misc.nrm2(rz, dims) / resz0
+            resz = misc.snrm2(rz, dims) / resz0
 
             s = matrix(0.0, (N,1))
             blas.copy(sl, s)
             ind = ml
             for k in range(len(ms)):
                 blas.copy(ss[k], s, offsety = ind)
-                ind += ms[k]
+                ind += ms[k]**2
             pslack = -misc.max_step(s, dims)
-            sslack = None
+            dslack = None
 
             pres, dres = None, None
             dinfres, pinfres = resz, None
@@ -3965,6 +3965,7 @@ def sdp(c, Gl = None, hl = None, Gs = None, hs = None, A = None, b = None,
                     blas.scal(0.0, zs[k], offset=j+ms[k]*(j+1), inc=ms[k])
                 base.gemv(Gs[k], zs[k], rx, alpha=2.0, beta=1.0, trans='T')
                 blas.scal(2.0, zs[k], inc=ms[k]+1)
+                misc.symm(zs[k], ms[k])
                 ind += ms[k]
             pinfres =  blas.nrm2(rx) / resx0
             dinfres = None
@@ -3974,7 +3975,7 @@ def sdp(c, Gl = None, hl = None, Gs = None, hs = None, A = None, b = None,
             ind = ml
             for k in range(len(ms)):
                 blas.copy(zs[k], z, offsety = ind)
-                ind += ms[k]
+                ind += ms[k]**2
             dslack = -misc.max_step(z, dims)
             pslack = None
 
@@ -4015,6 +4016,7 @@ def sdp(c, Gl = None, hl = None, Gs = None, hs = None, A = None, b = None,
                     blas.scal(0.0, zs[k], offset=j+ms[k]*(j+1), inc=ms[k])
                 base.gemv(Gs[k], zs[k], rx, alpha=2.0, beta=1.0, trans='T')
                 blas.scal(2.0, zs[k], inc=ms[k]+1)
+                misc.symm(zs[k], ms[k])
                 ind += ms[k]
             resx = blas.nrm2(rx) / resx0
 
@@ -4040,7 +4042,7 @@ def sdp(c, Gl = None, hl = None, Gs = None, hs = None, A = None, b = None,
             for k in range(len(ms)):
                 blas.copy(ss[k], s, offsety = ind)
                 blas.copy(zs[k], z, offsety = ind)
-                ind += ms[k]
+                ind += ms[k]**2
             pslack = -misc.max_step(s, dims)
             dslack = -misc.max_step(z, dims)
 
@@ -4059,6 +4061,7 @@ def sdp(c, Gl = None, hl = None, Gs = None, hs = None, A = None, b = None,
                     base.gemv(Gs[k], zs[k], rx, alpha=2.0, beta=1.0,
                         trans='T')
                     blas.scal(2.0, zs[k], inc=ms[k]+1)
+                    misc.symm(zs[k], ms[k])
                     ind += ms[k]
                 pinfres = blas.nrm2(rx) / resx0 / dcost
 
